@@ -3,11 +3,13 @@ module gosym
 go 1.23
 
 require (
+	golang.org/x/text v0.16.0
 	golang.org/x/tools v0.29.0
 	gopkg.in/yaml.v3 v3.0.0-20200313102051-9f266ea9e77c
 )
 
 require (
+	golang.org/x/text v0.16.0
 	golang.org/x/mod v0.22.0 // indirect
 	golang.org/x/sync v0.10.0 // indirect
 )
